@@ -95,7 +95,10 @@ TEXTS = ['one line', 'one lime', 'first\nsecond', 'first\nsecund\n', 'abstract t
 def yaml_key_cases(draw, kind):
     """YAML documents whose mappings mix key types with equal spellings (1 and "1", true and "true"): canonical order between
     such keys must not come from anything that varies between processes"""
-    vals = st.sampled_from([1, 'x', 'x', 5, None])
+    vals = st.one_of(st.sampled_from([1, 'x', 'x', 5, None]), st.sampled_from([1, 'x', 5, None]),
+                     # a YAML !!set of strings: if a loader accepts it at all, its order must not come from the hash seed
+                     st.lists(st.sampled_from(['alpha', 'beta', 'gamma', 'delta', 'x', 'y']), min_size=2, max_size=4, unique=True).map(
+                         lambda xs: {'__set__': xs}))
 
     def mapping():
         ks = draw(st.lists(st.sampled_from(MIXED_KEYS), min_size=2, max_size=5, unique_by=lambda k: (type(k).__name__, k)))
@@ -316,6 +319,11 @@ def check_purity(case, out):
     if a is None:
         with guard('build'):
             a, b = gen.build(fam, 'a'), gen.build(fam, 'b')
+            if case['input'] == 'json' and sum(map(ord, repr(case['a'])[:40])) % 3 == 0 and \
+                    gen.valid_case({'family': 'plist', 'a': case['a'], 'b': case['b']}):
+                # a property list compared with a plain JSON tree (two file types on the two sides)
+                a = gen.build(dict(fam, family='plist'), 'a')
+                out.label('purity:plist-vs-json')
     sa, sb = snapshot(a), snapshot(b)
 
     def compare(after_what):
